@@ -98,6 +98,33 @@ def run(ctx):
                         gev = evaluate(g, {r: "MessageAugmentation"})
                         if not any(s_.callee[0] in ("AddAssign::add_assign", "Add::add") for s_ in gev.sites.values()):
                             per_elem = True
+        # ... or an up-front pass `tail.iter().all(mergeable)` / `!any(..)` over the accumulated range whose closure
+        # decides against a MessageAugmentation element (folded under that assumption)
+        if not per_elem:
+            for a_ in accs:
+                for atom, pol in a_["lits"]:
+                    if not (atom[0] == "atom" and atom[1] == "term" and atom[2].op == "call" and len(atom[2].a[1]) == 2):
+                        continue
+                    qn = B.cname(atom[2])
+                    if not ((qn == "Iterator::all" and pol) or (qn == "Iterator::any" and not pol)):
+                        continue
+                    qcov = R.covers_all(strip_sites(atom[2].a[1][0]), "sigs")
+                    acov = R.covers_all(a_["source"], "sigs") if a_.get("source") is not None else None
+                    if qcov is None or not (qcov == acov or qcov == "all"):
+                        continue
+                    c_ = B.peel(atom[2].a[1][1])
+                    if not (c_.op == "agg" and c_.a[0][0] == "closure"):
+                        continue
+                    g = P.fns.get(c_.a[0][1])
+                    if g is None or g.arg_count < 2:
+                        continue
+                    ename = g.locals[g.arg_count].get("name")
+                    for r, adt in SP.switch_roots(P, g, ["Signature"]):
+                        if r[0] == ename and ename is not None:
+                            rv = strip_sites(evaluate(g, {r: "MessageAugmentation"}).ret)
+                            want = 0 if qn == "Iterator::all" else 1
+                            if rv.op == "const" and rv.a[0] == "int" and rv.a[1] == want:
+                                per_elem = True
         first_ok = True
         for b in oks:
             for adt, var, src, dsc in __import__("analysis.rules.common", fromlist=["scheme_context"]).scheme_context(P, f, b):
